@@ -295,6 +295,23 @@ class Body:
         for b, d in self.phis.items():
             for l, ph in d.items():
                 self.local_defs.setdefault(l, []).append(ph)
+        # trivial phis (all operands the same value, ignoring self references) are transparent: strip() follows them
+        changed = True
+        while changed:
+            changed = False
+            for b, d in self.phis.items():
+                for l, ph in d.items():
+                    if 'same_as' in ph.extra:
+                        continue
+                    ops = set()
+                    for a in ph.args:
+                        sa = strip(a)
+                        if sa is not ph:
+                            ops.add(sa.id)
+                            last = sa
+                    if len(ops) == 1 and last.kind != 'undef':
+                        ph.extra['same_as'] = last
+                        changed = True
 
     def _rename(self, b, cur, children):
         cur = dict(cur)
@@ -528,9 +545,14 @@ class Body:
 
 
 def strip(v):
-    """look through casts and copies"""
-    while v is not None and v.kind == 'cast':
-        v = v.args[0]
+    """look through casts, copies and trivial phis"""
+    while v is not None:
+        if v.kind == 'cast':
+            v = v.args[0]
+        elif v.kind == 'phi' and 'same_as' in v.extra:
+            v = v.extra['same_as']
+        else:
+            break
     return v
 
 
